@@ -11,7 +11,7 @@ from vlib import Check, run_tlc, tlc_ok, MachineryError
 
 PROP = "C13"
 WORKERS = int(os.environ.get("VERIF_WORKERS", "8"))
-KIND = {"f": 0, "d": 1, "i": 2, "e": 3, "w": 4}
+KIND = {"f": 0, "d": 1, "i": 2, "e": 3, "w": 4, "s": 5}
 NAME = {"a": 0, "b": 1, "c": 2}
 ERR = {"": 0, "repeated_decl": 1, "undeclared_op_ref": 2, "import_export": 3}
 DEFT = {"mir": 0, "ext": 1, "res": 2}
